@@ -296,3 +296,32 @@ Theorem C06_whole_exactly_once_of_pipeline_trace :
                    ++ map (WholeDispatch.tr_defer wp g) (combine (seq 0 (List.length ran)) ran)) ++ post.
 Proof. exact Gengo.Props.Whole.Whole_exactly_once_of_pipeline_trace. Qed.
 Print Assumptions C06_whole_exactly_once_of_pipeline_trace.
+
+(* C06_write_after_callbacks, tied to the pipeline's file effects: the one write event of a package names exactly the
+   generators whose destinations Pipeline.pkg_effects opens *)
+Theorem C06_whole_writes_are_pipeline_writes :
+  forall fmt order rank G wps fuel gens a wp,
+    NoDup (map Whole.wp_path wps) -> (forall src, fmt src <> None) -> (forall p l, Permutation (order p l) l) ->
+    In wp wps -> (forall g, In g gens -> WholeDispatch.fuel_ok G fuel wp g) ->
+    let E := Whole.whole_env fmt order rank G in
+    let gs := map (Whole.disp_gen wps fuel) gens in
+    snd (Pipeline.pkg_effects E a gs (Whole.to_pkginfo wp)) = Pipeline.Done ->
+    exists devs ws,
+      pkg_execute fixed_all (Whole.wp_d wp) gens G
+      = Ok (devs ++ (if is_nil ws then [] else [EWrites (pk_id (Whole.wp_d wp)) ws]), Done)
+      /\ ws = map g_idx (filter (WholeDispatch.renders_on fmt order rank G wps fuel wp) gens)
+      /\ Permutation (WholeDispatch.truncated (fst (fst (Pipeline.pkg_effects E a gs (Whole.to_pkginfo wp)))))
+                     (map (fun g => Pipeline.gen_file a (Whole.to_pkginfo wp) (g_name g))
+                          (filter (WholeDispatch.renders_on fmt order rank G wps fuel wp) gens)).
+Proof. exact Gengo.Props.Whole.Whole_dispatch_writes_are_pipeline_writes. Qed.
+Print Assumptions C06_whole_writes_are_pipeline_writes.
+
+(* for ANY generators: what one generator is called for on one processed package is a contiguous segment of the call log
+   of a successful run of the pipeline *)
+Theorem C06_whole_session_is_a_segment_of_the_trace :
+  forall (E : Pipeline.env) a w gens s p g,
+    Pipeline.exec_outcome E a w gens s = Pipeline.Done ->
+    In p (Pipeline.w_pkgs w) -> Gengo.Proofs.Pipeline.processed E a w s p = true -> In g gens ->
+    exists pre post, Pipeline.exec_trace E a w gens s = pre ++ Pipeline.go_trace (Pipeline.gen_run E g p) ++ post.
+Proof. exact Gengo.Props.Whole.Whole_session_is_a_segment_of_the_trace. Qed.
+Print Assumptions C06_whole_session_is_a_segment_of_the_trace.
